@@ -374,7 +374,7 @@ func c01KeyLayout(c *Ctx, rule string) {
 		}
 		c.Check(rule, fnName(fn)+"|key=marker‖reversed-name‖location", markerAt0 && nameAfterMarker && locAfterName, fn.Pos(), fmt.Sprintf("marker at offset 0: %v; name right after the marker: %v; location after marker+name: %v", markerAt0, nameAfterMarker, locAfterName))
 	}
-	c.CheckConst(rule, "marker-value|writer=readers", markerVal != "" , token.NoPos, fmt.Sprintf("ResourceRecordsKeyMarker = %q is what the writer emits first and what the closest-key readers copy to offset 0 and compare the found key with", markerVal))
+	c.CheckConst(rule, "marker-value|writer=readers", markerVal != "", token.NoPos, fmt.Sprintf("ResourceRecordsKeyMarker = %q is what the writer emits first and what the closest-key readers copy to offset 0 and compare the found key with", markerVal))
 }
 
 func declUsesObject(c *Ctx, pkg, fn string, obj types.Object) bool {
